@@ -26,6 +26,7 @@ type AtClause struct {
 	Anchor string // "call <name>#k"
 	Label  string
 	E      *Expr
+	GoalOnly bool // "check at": not assumed afterwards
 }
 
 type Contract struct {
@@ -48,6 +49,7 @@ type Contract struct {
 	Abstract bool // abstraction mode: nil/index/slice safety not generated, unknown callees havoc non-ghost heap only
 	Loops    map[int]*LoopC
 	Asserts  []*AtClause
+	GhostAts []*GhostAt
 	Replay   []string
 	Decreases *Expr
 	Using    []string
@@ -105,7 +107,7 @@ func newDB() *ContractDB {
 }
 
 var subKeywords = map[string]bool{"arith": true, "requires": true, "assumes": true, "allocates": true, "ensures": true, "assigns": true, "pure": true, "inline": true,
-	"trusted": true, "loop": true, "invariant": true, "decreases": true, "unroll": true, "assert": true, "replay": true,
+	"trusted": true, "loop": true, "invariant": true, "decreases": true, "unroll": true, "assert": true, "check": true, "replay": true,
 	"nosafety": true, "abstract": true, "using": true, "let": true, "opaque": true}
 var topKeywords = map[string]bool{"func": true, "spec": true, "lemma": true, "axiom": true, "ghost": true, "const": true, "global": true, "evalconst": true, "onalloc": true}
 
@@ -368,6 +370,16 @@ func (db *ContractDB) loadFile(pkg *packages.Package, f *ast.File, fname string)
 					continue
 				}
 				db.Ghosts[fs[2]] = &GhostVar{Name: fs[2], Type: t, Pkg: pkg}
+			} else if len(fs) >= 3 && fs[1] == "at" && cur != nil {
+				// ghost at <anchor>: <ghost lvalue> = <expr>   (ghost update at a program point)
+				r := strings.TrimPrefix(rest, "at ")
+				i := strings.Index(r, ":")
+				j := strings.Index(r, " = ")
+				if i < 0 || j < i {
+					db.errf("%s: bad ghost at", where)
+					continue
+				}
+				cur.GhostAts = append(cur.GhostAts, &GhostAt{Anchor: strings.TrimSpace(r[:i]), Lhs: db.mustExpr(r[i+1:j], where), Rhs: db.mustExpr(r[j+3:], where)})
 			} else {
 				db.errf("%s: bad ghost decl", where)
 			}
@@ -479,8 +491,10 @@ func (db *ContractDB) loadFile(pkg *packages.Package, f *ast.File, fname string)
 				if curLoop != nil {
 					curLoop.Unroll, _ = strconv.Atoi(rest)
 				}
-			case "assert":
-				// assert at <anchor>: expr
+			case "assert", "check":
+				// assert at <anchor>: expr   -- proved there, then assumed for what follows (a proof step)
+				// check at <anchor>: expr    -- proved there, NOT assumed afterwards (a goal; keeps quantified
+				//                               statements of the property out of later queries)
 				r := strings.TrimPrefix(rest, "at ")
 				i := strings.Index(r, ":")
 				if i < 0 {
@@ -488,7 +502,7 @@ func (db *ContractDB) loadFile(pkg *packages.Package, f *ast.File, fname string)
 					continue
 				}
 				lb, ex := splitLabel(r[i+1:])
-				cur.Asserts = append(cur.Asserts, &AtClause{Anchor: strings.TrimSpace(r[:i]), Label: lb, E: db.mustExpr(ex, where)})
+				cur.Asserts = append(cur.Asserts, &AtClause{Anchor: strings.TrimSpace(r[:i]), Label: lb, E: db.mustExpr(ex, where), GoalOnly: kw == "check"})
 			case "replay":
 				cur.Replay = append(cur.Replay, rest)
 			}
